@@ -40,11 +40,29 @@ def small_k(k):
 
 def make(rng, which=None):
     """-> dict(model, data (tuple), target (None | tensor | list), desc, nres)"""
-    names = ["pose_log", "points", "alg_log", "mixed_so3_offset", "two_outputs", "three_params", "program", "frozen"]
+    names = ["pose_log", "points", "alg_log", "mixed_so3_offset", "two_outputs", "three_params", "program", "frozen", "alias_output"]
     which = which or names[int(rng.integers(len(names)))]
     k = lie.GRPS[int(rng.integers(4))]
     a = L.GRP2ALG[k]
     kw = small_k(k)
+    if which == "alias_output":
+        # a prior on a Euclidean parameter written the short way: the residual IS the parameter tensor (or a view of it), no target;
+        # values of magnitude 2-6 so that robust kernels are outside their quadratic region
+        n = int(rng.integers(2, 6))
+        x0 = T(rng, n, scale=1.0) * 2 + torch.sign(T(rng, n)) * 2
+        view = bool(rng.integers(2))
+        second = bool(rng.integers(2))
+        X0 = G(k, rng, (), **kw)
+        Y = pp.LieTensor(G(k, rng, (2,), **kw), ltype=lie.LT[k])
+
+        def fn(ps, data):
+            r0 = ps[0].view(-1, 1) if view else ps[0]
+            if second:
+                return r0, (ps[1] @ data[0]).Log().tensor()
+            return r0
+        if second:
+            return dict(model=ResidualModel(["R", k], [x0, X0], fn), data=(Y,), target=None, desc=f"alias_output/R{n}{'(view)' if view else ''}+{k}", nres=2)
+        return dict(model=ResidualModel(["R"], [x0], fn), data=(Y,), target=None, desc=f"alias_output/R{n}{'(view)' if view else ''}", nres=1)
     if which == "pose_log":
         bshape = [(), (2,), (2, 2), (2, 1, 2), (3, 2, 2)][int(rng.integers(5))]
         pshape = bshape[len(bshape) - int(rng.integers(0, len(bshape) + 1)):] if bshape else ()
